@@ -143,6 +143,12 @@ def scenarios(tier):
                                     dict(specs=specs, N=3, d=1, test_size=0.3, batch=0, quick=False, fixed_dec=True),
                                     weight=300 * len(specs), shards=8, max_paths=100000, setup=dict(no_tv=True),
                                     bounds=dict(bandits=name, rows=3, batch_size=0, is_quick=False)))
+    # seuclidean: scipy estimates the variance from all rows of one cdist call, so the simulator's shared distance computation
+    # must hand it the same rows as the public API does (training rows + one test row)
+    out.append(Scenario('greedy0.radius:seuclidean.batch0.quick', simulate,
+                        dict(specs=[('greedy0', 'radius:seuclidean')], N=4, d=1, test_size=0.5, batch=0, quick=True,
+                             fixed_dec=True), weight=400, shards=8, max_paths=100000, setup=dict(no_tv=True),
+                        bounds=dict(bandits='greedy0.radius:seuclidean', rows='2 train + 2 test', batch_size=0)))
     # exact ties at the k-th neighbour: 4 training rows, k = 1: the smallest size at which numpy's argpartition and a stable sort pick different rows (the simulator's own k-nearest selection must agree with the API's)
     if not q:
       out.append(Scenario('greedy0.knearest:1:cityblock.ties.batch0', simulate,
